@@ -164,6 +164,7 @@ func main() {
 	binds := flag.Float64("binds", 0, "if > 0, boost Bind / Arg producers (share of expression leaves)")
 	boost := flag.String("boost", "", "comma separated producer=factor weight multipliers")
 	mode := flag.String("mode", "mixed", "generator: typed, structured, mixed, or a special mode (c06)")
+	stride := flag.Int("stride", 1, "c07: use every stride-th boundary code point")
 	maxLen := flag.Int("maxlen", 3, "c06: exhaustive strings up to this length over the critical alphabet")
 	flag.Parse()
 
@@ -178,6 +179,10 @@ func main() {
 	}
 	if *mode == "c06" {
 		runC06(w, *seed, *maxLen, *n)
+		return
+	}
+	if *mode == "c07" {
+		runC07(w, *seed, *n, *stride)
 		return
 	}
 	if *mode == "c18" {
